@@ -54,6 +54,7 @@ type tcase struct {
 	Note   string   `json:"note,omitempty"` // generator label
 	Tight  bool     `json:"tight,omitempty"` // body built from chosen codes: the tighter time allowance applies
 	Own    bool     `json:"own,omitempty"`   // body built to cost time: runs in a process of its own, under the general allowance
+	Work   int64    `json:"work,omitempty"`  // elementary operations the decoder's documented work caps admit for this body (admittedJPEG, admittedJBIG2)
 	Live   bool     `json:"live,omitempty"`  // sample the live heap during the decode
 	MaxOut int64    `json:"max_out,omitempty"` // the image the body declares has this many bytes: no more may be decoded
 	body   []byte
@@ -346,11 +347,63 @@ func allowedNS(in, out int64) int64 {
 // byte of the tight allowance.  The scripts the harness builds need 0.3 s to 1.1 s on the
 // unchanged tree (measured); under the tight allowance the slowest of them used 80% of it,
 // and a slower machine raised a false alarm.  The general allowance leaves a factor of ten.
+//
+// Bodies the harness builds to drive a decoder up to its documented WORK cap carry c.Work,
+// the number of elementary operations that cap admits for the body, and get nsPerWork for
+// each of them on top: the caps have constants of their own, which the general allowance
+// does not cover.  (JBIG2: workLimit = 64 Mi pixel operations + 4096 per input byte,
+// whatever the output; 88 Mi operations for the 6 KB "200 Mi pixels" body need 3 to 5.5 s.
+// JPEG: 64 walks over the coefficient blocks of the frame, 0.13 us per block visit.)  The
+// unchanged tree needs 35 to 130 ns per operation; a decoder that does the work its cap
+// should have refused needs several times the allowance (and is reported by the
+// work-over-limit and pass-counter oracles whatever the time).
+const nsPerWork = 500
+
 func allowFor(c *tcase) func(in, out int64) int64 {
 	if c.Tight {
 		return func(in, out int64) int64 { return (750 * time.Millisecond).Nanoseconds() + 5000*(in+out) }
 	}
+	if w := c.Work; w > 0 {
+		return func(in, out int64) int64 { return allowedNS(in, out) + nsPerWork*w }
+	}
+	// any other chain with a JBIG2 stage (mutated files, patched page and region sizes): what
+	// the work cap admits for the bytes that stage can see - the raw bytes if it comes first,
+	// else unknown before the decode, hence the hard cap
+	for i, n := range c.Names {
+		if n == "JBIG2Decode" {
+			first := i == 0
+			return func(in, out int64) int64 {
+				seen := int64(1) << 40
+				if first {
+					seen = in
+				}
+				return allowedNS(in, out) + nsPerWork*admittedJBIG2(seen, 1<<62)
+			}
+		}
+	}
 	return allowedNS
+}
+
+// admittedJPEG: the block visits the progressive decoder's pass cap admits for a frame of
+// w x h pixels with nComp unsampled components: maxProgPasses (64, scan.go) walks over its
+// coefficient blocks, plus the visit that trips the cap.  The constant is written out here
+// on purpose: an allowance read from the code under test would follow a change to it.
+func admittedJPEG(w, h, nComp int) int64 {
+	return 64*int64((w+7)/8)*int64((h+7)/8)*int64(nComp) + 1
+}
+
+// admittedJBIG2: the pixel operations the JBIG2 work cap (decode.go: workBudgetBase 64 Mi,
+// workBudgetPerByte 4096, workBudgetHardCap 512 Mi) admits for rawLen bytes that declare
+// regions of declared pixels in all.
+func admittedJBIG2(rawLen int64, declared int64) int64 {
+	lim := int64(512 << 20)
+	if rawLen < (512<<20-64<<20)/4096 {
+		lim = 64<<20 + 4096*rawLen
+	}
+	if declared < lim {
+		return declared
+	}
+	return lim
 }
 
 func liveHeap() uint64 {
